@@ -88,6 +88,12 @@ def button_shape(shape: str) -> dict:
         body = _btn_read(2) + _btn_read(0) + _btn_read(1)
         meta["k"] = 1
         meta["buttons"] = [{"i": 0, "pin": 5, "decl": "setup"}, {"i": 1, "pin": 6, "decl": "setup"}, {"i": 2, "pin": 9, "decl": "setup"}]
+    elif shape == "samepin":     # two Button objects on ONE pin (two handlers for one physical button)
+        pre = "def h0():\n" + _ind(['mon.write("c0")']) + "def h1():\n" + _ind(['mon.write("c1")'])
+        decl = "b0 = Button(7, on_click=h0)\nb1 = Button(7, on_click=h1)\n"
+        body = _btn_read(1) + _btn_read(0)
+        meta["k"] = 1
+        meta["buttons"] = [{"i": 0, "pin": 7, "decl": "setup", "nth": 0, "of": 2}, {"i": 1, "pin": 7, "decl": "setup", "nth": 1, "of": 2}]
     elif shape == "shared":      # three buttons, ONE on_click handler for all of them
         pre = "def h0():\n" + _ind(['mon.write("cs")'])
         decl = "b0 = Button(5, on_click=h0)\nb1 = Button(6, on_click=h0)\nb2 = Button(9, on_click=h0)\n"
@@ -247,12 +253,16 @@ def button_inputs(meta: dict, sigs: list, reads: list | None = None) -> tuple:
     A button declared in the loop has no setup sample: its signal is fed from the first pass on.
     reads (shape dyn): number of is_pressed() calls per pass.  -> (passes, inputs text)"""
     lines, passes = [], None
+    by_pin: dict = {}
     for b, sig in zip(meta["buttons"], sigs):
         n = len(sig) - (1 if b["decl"] == "setup" else 0)
         passes = n if passes is None else passes
         if n != passes:
             raise MachineryError("signals of one firmware run must have the same length")
-        lines.append(f"d {b['pin']} " + " ".join(map(str, sig)))
+        by_pin.setdefault(b["pin"], []).append(list(sig))
+    for pin, ss in by_pin.items():        # several Button objects on one pin read it one after the other in every phase
+        inter = [s[t] for t in range(len(ss[0])) for s in ss] if len(ss) > 1 else ss[0]
+        lines.append(f"d {pin} " + " ".join(map(str, inter)))
     if meta.get("feed") is not None:
         feed = []
         for n in reads or []:
@@ -323,16 +333,21 @@ def _is_str(e, prefix=None):
     return e.get("e") == "w" and e.get("t") == "s" and isinstance(e.get("v"), str) and (prefix is None or e["v"].startswith(prefix))
 
 
-def project_button(events: list, i: int, pin: int, hc: int = -1) -> list:
-    """Abstract Button events of button i (pin) from a firmware log."""
+def project_button(events: list, i: int, pin: int, hc: int = -1, nth: int = 0, of: int = 1) -> list:
+    """Abstract Button events of button i (pin) from a firmware log.  When `of` Button objects share the pin (they are
+    sampled in declaration order in every phase), this button owns the reads number nth, nth+of, ... of each phase."""
     out, n, j = [], len(events), 0
+    seen = 0
     while j < n:
         e = events[j]
         k = e.get("e")
         if k == "phase":
+            seen = 0
             out.append({"k": {"setup": "setup", "loop": "pass", "end": "end"}[e["v"]], "v": hc if e["v"] == "end" else 0, "h": 0})
         elif k == "dr" and e.get("p") == pin:
-            out.append({"k": "sample", "v": e["r"], "h": 0})
+            if seen % of == nth:
+                out.append({"k": "sample", "v": e["r"], "h": 0})
+            seen += 1
         elif _is_str(e):
             v = e["v"]
             if v == f"c{i}":
